@@ -611,6 +611,16 @@ def E_dispatch(repo, clause):
                 c = calls[0]
                 gs = norm_guards(fn, c)
                 eq = guard_eq(fn, c, ft)
+                if not eq:
+                    # decided on representatives: the routine is reached for exactly this file type (fall-through after a refusal of unknown types, `in` tests, ...)
+                    from .common import eval_small, Undecidable
+                    fgs = [(expand(fn, t_), p_) for t_, p_, k_ in gs if any(isinstance(y, ast.Name) and y.id == "filetype" for y in ast.walk(expand(fn, t_)))]
+                    if fgs:
+                        try:
+                            reached = {v for v in ("lmpdat", "cml", "cif", "mol", "xyz", "") if all(bool(eval_small(t_, {"filetype": v})) == p_ for t_, p_ in fgs)}
+                            eq = reached == {ft}
+                        except Undecidable:
+                            pass
                 withs = [a for a in fn.ancestors(c) if isinstance(a, ast.With)]
                 mode_ok = True
                 src_ok = True
